@@ -945,7 +945,7 @@ pub fn check(cfg: &RunCfg, _findings: &Findings) -> Report {
     cfg,
     "C13-programs",
     16,
-    if quick { 4_000 } else { 120_000 },
+    if quick { 30_000 } else { 250_000 },
     64,
     300,
     |src: &mut Src| gen_case(src),
